@@ -40,8 +40,10 @@ type ClientConn struct {
 	state      connectivity.State
 	closed     bool
 	CloseCount int
-	Calls      []Call
-	gen        int // bumped on every state change
+	// HoldCalls: unary calls on this pool do not return until the harness clears the flag
+	HoldCalls bool
+	Calls     []Call
+	gen       int // bumped on every state change
 }
 
 // Registry of everything dialed during the current execution (harness resets it).
@@ -167,6 +169,12 @@ func (cc *ClientConn) record(ctx context.Context, method string, stream bool, ar
 func (cc *ClientConn) Invoke(ctx context.Context, method string, args, reply interface{}, opts ...orig.CallOption) error {
 	if cc.record(ctx, method, false, args, len(opts)) {
 		return status.Error(codes.Canceled, "grpc: the client connection is closing")
+	}
+	if cc.HoldCalls {
+		// a unary call stays in flight until the server answers (the harness releases it)
+		if s := vsched.S; s != nil && !s.Unwinding(s.Running()) {
+			s.Yield(func() bool { return !cc.HoldCalls }, "unary call in flight")
+		}
 	}
 	return nil
 }
